@@ -1,4 +1,5 @@
 import BlackIt.Properties.C14
+import BlackIt.Properties.C10
 set_option linter.unusedSectionVars false
 set_option linter.unusedSimpArgs false
 set_option linter.unusedVariables false
@@ -158,6 +159,70 @@ theorem restore_after_calibrate (c : Comp Θ S L σ) (n : Nat) (s : State Θ S L
         · subst hn0; simp [calLoop, stepState, hk]
         · exact ih (stepState s k) (by simpa [stepState] using hk) (by omega) hret
   simp [restore, hd, ht]
+
+/-! ### the RL scheduler: the full statement is false (known finding `C05/rl-scheduler/live-split`)
+
+In `calibrate_split` and `resume_eq` the component `c.action` is the sequence of actions the calibrator
+*consumes*; the theorems say that the calibrator itself adds no dependence on where a run is cut.  For the
+round-robin scheduler nothing else is involved (`nextIdx` does not read `c.action`) and the statement is the
+full C05.  For the RL scheduler the consumed actions come from the agent thread, and every `calibrate()` call
+is one session of the exchange modelled in `BlackIt/Model/RLProtocol.lean`: at the end of a session the
+action the agent has already chosen for the next batch is dropped, and the next session asks `policy` again.
+An agent whose answer depends on its own history (every learning agent, every agent that draws random numbers)
+therefore hands over different actions when the same batches are split over two calls. -/
+end BlackIt.Calibrator
+
+namespace BlackIt.RL
+
+/-- an agent whose action is the parity of the number of `policy` calls it has answered so far -/
+def parityAgent (h : List AgEv) : Nat :=
+  (h.filter (fun e => match e with | .chose _ => true | .learnt _ _ => false)).length % 2
+
+def oneCall : List Bool := [true, true, true, false, false, true, true, false, false, false, false, true, true, true, true,
+  false, false, false, false, false, true, true]
+def twoCalls : List Bool := [true, true, true, true, true, false, false, false, true, true, true, false, false, true, true,
+  false, false, false, false, true, true, true, true, false, false, false, false, false, true, true]
+
+/-- **C05 is false for the RL scheduler** (witness, replayed on the real code by the check): three batches in
+one `calibrate()` call execute the agent's actions 0, 1 in batches 2, 3; the same three batches split 1 + 2
+execute 1, 0 — for *every* thread interleaving of either run. -/
+theorem rl_split_not_transparent (σ1 σ2 : List Bool) (e1 e2 : DSt)
+    (h1 : drun parityAgent { sessions := [(3, false)] } σ1 = some e1) (t1 : terminal parityAgent e1 = true)
+    (h2 : drun parityAgent { sessions := [(1, false), (2, false)] } σ2 = some e2) (t2 : terminal parityAgent e2 = true) :
+    e1.s.executed = [(2, 0), (3, 1)] ∧ e2.s.executed = [(2, 1), (3, 0)] := by
+  have w1 : (drun parityAgent { sessions := [(3, false)] } oneCall).map
+      (fun d => (d.s.executed, terminal parityAgent d)) = some ([(2, 0), (3, 1)], true) := by decide
+  have w2 : (drun parityAgent { sessions := [(1, false), (2, false)] } twoCalls).map
+      (fun d => (d.s.executed, terminal parityAgent d)) = some ([(2, 1), (3, 0)], true) := by decide
+  cases hd1 : drun parityAgent { sessions := [(3, false)] } oneCall with
+  | none => simp [hd1] at w1
+  | some d1 =>
+    cases hd2 : drun parityAgent { sessions := [(1, false), (2, false)] } twoCalls with
+    | none => simp [hd2] at w2
+    | some d2 =>
+      simp only [hd1, hd2, Option.map_some, Option.some.injEq, Prod.mk.injEq] at w1 w2
+      have a := schedule_independent_init parityAgent _ σ1 oneCall e1 d1 h1 t1 hd1 w1.2
+      have b := schedule_independent_init parityAgent _ σ2 twoCalls e2 d2 h2 t2 hd2 w2.2
+      exact ⟨a.1.trans w1.1, b.1.trans w2.1⟩
+
+/-- what does hold for the RL scheduler (`…_partial`): within one session the executed actions are exactly the
+agent's choices in order, each learned once — `learned_eq_executed`, `schedule_independent` (C10); across a
+cut only the calibrator-side statement `Calibrator.calibrate_split` (same consumed actions ⇒ same history). -/
+theorem rl_split_partial (f : List AgEv → Nat) (script : List (Nat × Bool)) (σ1 σ2 : List Bool) (e1 e2 : DSt)
+    (h1 : drun f { sessions := script } σ1 = some e1) (t1 : terminal f e1 = true)
+    (h2 : drun f { sessions := script } σ2 = some e2) (t2 : terminal f e2 = true) :
+    e1.s.executed = e2.s.executed := (schedule_independent_init f script σ1 σ2 e1 e2 h1 t1 h2 t2).1
+
+end BlackIt.RL
+
+namespace BlackIt.Calibrator
+variable {Θ S L σ : Type}
+
+/-- **C05, live split, round-robin scheduler — the full statement**: no component of the run other than the
+pure ones is involved (`nextIdx` ignores the agent) -/
+theorem nextIdx_rr_ignores_agent (c c' : Comp Θ S L σ) (k : Core Θ S L σ) (b : Nat) (h : k.sched = .rr b) :
+    nextIdx c k = nextIdx c' k := by
+  simp [nextIdx, h]
 
 /-! ### non-vacuity: 3 = 1 + 2 on a scripted run -/
 section Example
